@@ -243,7 +243,7 @@ pub fn set_end_of_stream_position(log_meta_data_buffer: &AtomicBuffer, position:
 }
 
 pub fn index_by_term(initial_term_id: i32, active_term_id: i32) -> Index {
-    (active_term_id - initial_term_id) as Index % PARTITION_COUNT
+    active_term_id.wrapping_sub(initial_term_id) as Index % PARTITION_COUNT
 }
 
 pub fn index_by_term_count(term_count: i64) -> Index {
@@ -255,13 +255,15 @@ pub fn index_by_position(position: i64, position_bits_to_shift: i32) -> Index {
 }
 
 pub fn compute_position(active_term_id: i32, term_offset: Index, position_bits_to_shift: i32, initial_term_id: i32) -> i64 {
-    let term_count: i64 = active_term_id as i64 - initial_term_id as i64;
+    // 32-bit wrapping subtraction copes with a term id that has wrapped past i32::MAX
+    let term_count: i64 = active_term_id.wrapping_sub(initial_term_id) as i64;
 
     (term_count << position_bits_to_shift as i64) + term_offset as i64
 }
 
 pub fn compute_term_begin_position(active_term_id: i32, position_bits_to_shift: i32, initial_term_id: i32) -> i64 {
-    let term_count: i64 = active_term_id as i64 - initial_term_id as i64;
+    // 32-bit wrapping subtraction copes with a term id that has wrapped past i32::MAX
+    let term_count: i64 = active_term_id.wrapping_sub(initial_term_id) as i64;
 
     term_count << position_bits_to_shift as i64
 }
@@ -309,10 +311,10 @@ pub fn default_frame_header(log_meta_data_buffer: &AtomicBuffer) -> AtomicBuffer
 }
 
 pub fn rotate_log(log_meta_data_buffer: &AtomicBuffer, current_term_count: i32, current_term_id: i32) {
-    let next_term_id = current_term_id + 1;
+    let next_term_id = current_term_id.wrapping_add(1);
     let next_term_count = current_term_count + 1;
     let next_index = index_by_term_count(next_term_count as i64);
-    let expected_term_id = next_term_id - PARTITION_COUNT;
+    let expected_term_id = next_term_id.wrapping_sub(PARTITION_COUNT);
     let new_raw_tail: i64 = next_term_id as i64 * (1_i64 << 32);
 
     let mut raw_tail: i64;
